@@ -64,9 +64,14 @@ class RegexCompiler:
 
         return self.bytecode
 
+    MAX_PROGRAM_SIZE = 1 << 18
+
     def _emit(self, opcode: Op, *args) -> int:
         """Emit an instruction and return its index."""
         idx = len(self.bytecode)
+        if idx >= self.MAX_PROGRAM_SIZE:
+            # Counted quantifiers are unrolled: a{99999999} must not exhaust the host
+            raise RegExpError("Regular expression too large")
         self.bytecode.append((opcode, *args))
         return idx
 
